@@ -3,4 +3,5 @@ CONSTANTS
   Tier = "quick"
 INVARIANT InvClaims
 INVARIANT InvUnwrapDomain
+INVARIANT InvShapesDomain
 CHECK_DEADLOCK FALSE
